@@ -64,13 +64,23 @@ def valid_payload(rng, proto, n=None):
     return body
 
 
+def ctl_payload(proto):
+    if proto in HDR_PROTOS:
+        return struct.pack(">I", 0x80000001) + b"k"
+    if proto == "pair1":
+        return struct.pack(">I", 1) + b"k"
+    return b"k"
+
+
 class Sess:
     def __init__(self, tag, tran, role, proto, rcvmax, stream, cuts=(), flags="w", ctl=True, nexp=4, rng=None):
         self.tag, self.tran, self.role, self.proto, self.rcvmax, self.stream, self.flags = tag, tran, role, proto, rcvmax, stream, flags
         me, peer = PT[proto]
         ctlhex = "-"
         if ctl:
-            ctlhex = hx(valid_payload(random.Random(7), proto, 3))
+            # protocols that deliver nothing unsolicited: the control connection only has to get through the negotiation
+            # (the message must pass every RECVMAXSZ used here: at most 5 bytes)
+            ctlhex = "=" if proto in ("req", "surveyor") else hx(ctl_payload(proto))
         self.kind = "sess"
         self.line = "sess %s %s %s %d %s %s %s %s %d %d %d" % (tran, role, proto, rcvmax, hx(stream), C1.cuts_str(cuts), flags,
                                                               ctlhex, nexp, me, peer)
@@ -145,23 +155,48 @@ def spec_check(c, out):
                 for h, b in rx:
                     if not (h.startswith("P:") and wf_backtrace(unhx(h[2:]))):
                         return "a message with a malformed protocol header was delivered"
-            # what is delivered must be (the payload part of) admissible frames, in order
+            # what is delivered must be admissible frames of the stream, in order, split into header and body the way
+            # the protocol prescribes: nothing invented, nothing read beyond the frame
             k = 0
             for h, b in rx:
-                while k < len(allowed) and not allowed[k].endswith(b):
+                def fits(fr):
+                    if c.proto in ("xrep", "xrespondent"):
+                        return h.startswith("P:") and unhx(h[2:]) + b == fr
+                    if c.proto in ("rep", "respondent"):
+                        return h == "-" and fr.endswith(b) and wf_backtrace(fr[:len(fr) - len(b)])
+                    if c.proto == "pair1":
+                        return len(fr) >= 4 and unhx(h) == fr[:4] and b == fr[4:]
+                    return h == "-" and b == fr
+                while k < len(allowed) and not fits(allowed[k]):
                     k += 1
                 if k == len(allowed):
-                    return "delivered bytes that are not the tail of any remaining frame of the stream"
+                    return "delivered a message that is not a frame of the stream split into a well-formed header and its body"
                 k += 1
         e = [l for l in o if l.startswith("end ")]
         if e and "closed=0" in e[0] and len(st) >= 8 and not good_nego:
             return "a wrong negotiation header did not close the connection"
         if e and "closed=0" in e[0] and good_nego and ref_frames(c.tran, c.rcvmax, st[8:])[1]:
             return "an invalid / oversize length field did not close the connection"
+    if c.kind == "wsrx":
+        lim = int(c.line.split()[2])
+        if lim > 0 and any(len(b) > lim for h, b in rx):
+            return "WebSocket: a message larger than RECVMAXSZ was delivered"
     if c.kind == "udp":
+        # every delivery is the first us_length bytes of a DATA datagram that really carries that many, in order
+        dgs = [unhx(x) for x in c.line.split()[2].split(",")]
+        k = 0
         for h, b in rx:
             if len(b) > 65000:
                 return "UDP: a payload above the receive maximum was delivered"
+            while k < len(dgs):
+                d = dgs[k]
+                k += 1
+                if len(d) >= 8 and d[0] == 1 and d[1] == 0:
+                    ln = d[4] | (d[5] << 8)
+                    if ln <= len(d) - 8 and d[8:8 + ln] == b:
+                        break
+            else:
+                return "UDP: delivered bytes that no DATA datagram of the session carries (length field beyond the datagram?)"
     return None
 
 
@@ -200,7 +235,7 @@ def gen_sessions(rng, tier):
             for fl in (["cw", "w", "r"] if not q else [rng.choice(["cw", "w", "r"])]):
                 add("nego-trunc", tran, role, proto, 0, good[:t], flags=fl, nexp=0)
     # (b) length field: invalid, oversize, RECVMAXSZ boundaries, body shorter / longer than announced
-    for i in range(60 if q else 1200):
+    for i in range(120 if q else 1500):
         tran, role = rng.choice(TR)
         proto = rng.choice(protos)
         me, peer = PT[proto]
@@ -228,7 +263,7 @@ def gen_sessions(rng, tier):
         fl = rng.choice(["w", "w", "cw", "r"])
         add("len-" + kind, tran, role, proto, rcvmax, st, cuts, fl, nexp=pre.count(b"") and 3)
     # (c) protocol headers: too short, no request id within TTL, header overflow, hop counts
-    for i in range(50 if q else 1000):
+    for i in range(100 if q else 1200):
         tran, role = rng.choice(TR)
         proto = rng.choice(["rep", "xrep", "respondent", "xrespondent", "req", "surveyor", "pair1"])
         me, peer = PT[proto]
@@ -260,7 +295,7 @@ def gen_sessions(rng, tier):
             add("trunc", tran, role, proto, rng.choice([0, 0, 64]), st[:t], [rng.randrange(1, max(2, t))] if t > 1 else [],
                 rng.choice(["cw", "cw", "r", "w"]), nexp=2)
     # (e) mutated valid sessions and raw garbage
-    for i in range(120 if q else 4000):
+    for i in range(260 if q else 4000):
         tran, role = rng.choice(TR)
         proto = rng.choice(protos)
         st, msgs = seed_session(rng, tran, proto)
@@ -308,7 +343,7 @@ def gen_udp(rng, tier):
         return bytes([ver, op]) + struct.pack("<HHH", ty, p0, p1) + payload
 
     creq = dg(1, peer, 65000, 5)
-    for i in range(40 if q else 600):
+    for i in range(80 if q else 800):
         ds, nexp = [], 0
         if rng.random() < 0.85:
             ds.append(creq if rng.random() < 0.8 else dg(1, peer, rng.choice([0, 1, 100]), rng.choice([1, 2, 9, 600])))
@@ -385,7 +420,7 @@ def gen_ws(rng, tier):
         cuts = sorted(set(rng.randrange(1, len(b)) for _ in range(rng.choice([0, 1, 3])))) if len(b) > 1 else []
         cases.append(Line("wshs-mut", "wshs", "wshs %s %s %s" % (hx(bytes(b)), C1.cuts_str(cuts), rng.choice(["c", "-"]))))
     # after a good upgrade: mutated frame sequences (C16's generator), message limit on / off
-    for i in range(40 if q else 1500):
+    for i in range(60 if q else 1500):
         role = rng.choice("ld")
         frames = C16.gen_ws_stream(rng, "s" if role == "l" else "c")
         rcvmax = 0
@@ -404,6 +439,21 @@ def gen_ws(rng, tier):
     for t in (offs if not q else rng.sample(offs, 10)):
         cases.append(Line("ws-trunc", "wsrx", "wsrx l 0 %s - 2 cw" % hx(s[:t])))
     return cases
+
+
+def agree(c, io, mo):
+    """model <-> implementation.  A connection the peer RESETS discards whatever nng had not read yet (TCP drops its
+    receive queue on RST): there, what is delivered may be any prefix of the model's deliveries -- real time, never an alarm"""
+    io = C1.strip_diag(io)
+    if io == mo:
+        return True
+    if c.kind == "sess" and "r" in getattr(c, "flags", ""):
+        irx = [l for l in io if l.startswith("rx ")]
+        mrx = [l for l in mo if l.startswith("rx ")]
+        irest = [re.sub(r"^end n=\d+", "end n=*", l) for l in io if not l.startswith("rx ")]
+        mrest = [re.sub(r"^end n=\d+", "end n=*", l) for l in mo if not l.startswith("rx ")]
+        return irx == mrx[:len(irx)] and irest == mrest
+    return False
 
 
 def run(tier, seed, replay=None):
@@ -486,7 +536,15 @@ def run(tier, seed, replay=None):
             text, " | ".join(io)[:800], " | ".join(mout[idx])[:800], c.line))
         rep.violation(p, text + " [" + c.tag + ": " + c.line[:120] + ("..." if len(c.line) > 120 else "") + "]", nofail=nofail)
 
+    leak_reports = []
     for idx, rc, errtxt in crashes:
+        if rc == 99 and ("LeakSanitizer" in errtxt or "byte(s) leaked in" in errtxt) and \
+                "ERROR: AddressSanitizer" not in errtxt and "runtime error" not in errtxt:
+            # memory not released at nng_fini: outside C11's statement (crash / corruption / hang / limits); recorded for C03
+            fr = re.findall(r"#\d+ 0x[0-9a-f]+ in (\S+) /\S*?/src/(\S+)", errtxt)
+            leak_reports.append(" <- ".join("%s(%s)" % (a, b) for a, b in fr[:4]))
+            rep.replay_file("leak_%d.txt" % idx, errtxt)
+            continue
         what = "watchdog: the driver did not finish in time (hang)" if rc == -9 else \
             "implementation crashed / sanitizer report (rc=%s: %s)" % (rc, san_summary(errtxt))
         p = rep.replay_file("crash_%d.case" % idx, "# rc=%s\n# %s\n%s\n" % (rc, errtxt.replace("\n", "\n# "), lines[idx]))
@@ -512,7 +570,7 @@ def run(tier, seed, replay=None):
             if m:
                 cpu_max = max(cpu_max, int(m.group(1)))
         bad = spec_check(c, io)
-        same = C1.strip_diag(io) == mout[idx]
+        same = agree(c, io, mout[idx])
         if bad or not same:
             # real-time effects must not raise an alarm: repeat the session alone with longer pauses
             for g in ("4000", "12000"):
@@ -520,7 +578,7 @@ def run(tier, seed, replay=None):
                 if cr2:
                     break
                 bad2 = spec_check(c, io2)
-                same2 = C1.strip_diag(io2) == mout[idx]
+                same2 = agree(c, io2, mout[idx])
                 if not bad2 and same2:
                     bad, same, io = None, True, io2
                     rep.cov["retried_ok"] = rep.cov.get("retried_ok", 0) + 1
@@ -549,7 +607,7 @@ def run(tier, seed, replay=None):
                 "distinct sessions on which model and code agree and the spec oracle holds",
         "samples": [lines[0][:200], lines[len(lines) // 2][:200], lines[-1][:200]],
         "case_histogram": hist, "outcome_classes": len(classes), "model_impl_divergences": len(diverged),
-        "max_cpu_ms_per_session": cpu_max, "cpu_limit_ms": CPU_LIMIT_MS,
+        "max_cpu_ms_per_session": cpu_max, "cpu_limit_ms": CPU_LIMIT_MS, "leak_reports_at_exit": leak_reports,
         "protocols": sorted(PT.keys()), "transports": ["tcp (listen, dial)", "ipc (listen, dial)", "socket://", "ws + HTTP upgrade", "udp"],
     })
     rep.assumptions += [
